@@ -659,7 +659,15 @@ type c18Dialer struct {
 	origCur  *certConfig
 	origSer  [][]byte
 	prev2Raw []byte
+	genuine  bool  // kind 7: untampered listener, address exactly as its multiaddr carried it
 	cfg      int64 // how the dialing transport was built: 0 default, 1 WithTLSClientConfig, 2 ... with a user VerifyPeerCertificate
+}
+
+// a dial that must complete: the listener is untouched and the certhashes are the ones its multiaddr carried
+func (d *c18Dialer) runGenuine(hashes []multihash.DecodedMultihash) int64 {
+	d.genuine = true
+	defer func() { d.genuine = false }()
+	return d.run(nil, nil, false, hashes)
 }
 
 func (d *c18Dialer) dialOnce(addr ma.Multiaddr) int64 {
@@ -678,6 +686,9 @@ func (d *c18Dialer) dialOnce(addr ma.Multiaddr) int64 {
 		var mm ErrCertHashMismatch
 		if errors.As(err, &mm) {
 			return 1
+		}
+		if strings.Contains(err.Error(), "without certhashes") {
+			return 1 // refused before any handshake: nothing to pin
 		}
 		if (errors.Is(err, context.DeadlineExceeded) || strings.Contains(err.Error(), "timeout")) && attempt < 2 {
 			d.out.Cover("dial.retry_after_timeout")
@@ -735,6 +746,9 @@ func (d *c18Dialer) run(chain []c18Cert, ser [][]byte, useSer bool, hashes []mul
 	if d.cfg != 0 {
 		line = []int64{6, d.cfg, int64(len(served.Certificate))}
 	}
+	if d.genuine {
+		line = []int64{7, d.cfg, int64(len(served.Certificate))}
+	}
 	for _, raw := range served.Certificate {
 		line = append(line, c18Describe(ids, c18Cert{raw: raw}, now)...)
 	}
@@ -791,6 +805,10 @@ func c18Dials(t *testing.T, out *verifh.Out, r *verifh.Rand, sg *c18Signers, n i
 		}
 	}()
 	m := srv.certManager
+	addrPrev, err := extractCertHashes(ln.Multiaddr()) // the address as a peer learns it BEFORE the rollover
+	if err != nil {
+		t.Fatal(err)
+	}
 	// one exact rollover so that lastConfig is set and the current certificate is valid in real time
 	m.mx.RLock()
 	fireAt := m.currentConfig.End().Add(-clockSkewAllowance)
@@ -841,11 +859,19 @@ func c18Dials(t *testing.T, out *verifh.Out, r *verifh.Rand, sg *c18Signers, n i
 
 	// dialers built with WithTLSClientConfig
 	var cfgDialers []*c18Dialer
-	for cfg := int64(1); cfg <= 2; cfg++ {
+	for cfg := int64(1); cfg <= 4; cfg++ {
 		conf := &tls.Config{MinVersion: tls.VersionTLS13, SessionTicketsDisabled: true, ServerName: "c18.example"}
-		if cfg == 2 {
+		switch cfg {
+		case 2:
 			conf.VerifyPeerCertificate = func([][]byte, [][]*x509.Certificate) error { return nil }
 			conf.VerifyConnection = func(tls.ConnectionState) error { return nil }
+		case 3:
+			conf = &tls.Config{InsecureSkipVerify: true}
+		case 4:
+			pool := x509.NewCertPool()
+			pool.AddCert(cur.tlsConf.Certificates[0].Leaf)
+			pool.AddCert(next.tlsConf.Certificates[0].Leaf)
+			conf = &tls.Config{RootCAs: pool}
 		}
 		k, _, _ := ic.GenerateEd25519Key(c18RandReader{r})
 		cmx, err := quicreuse.NewConnManager(quic.StatelessResetKey{}, quic.TokenGeneratorKey{})
@@ -894,6 +920,36 @@ func c18Dials(t *testing.T, out *verifh.Out, r *verifh.Rand, sg *c18Signers, n i
 			out.Cover("dial.addr_has." + names[i])
 		}
 		d.run(nil, nil, false, hs)
+	}
+	// clause 17: addresses exactly as the listener's multiaddr carried them before and after the rollover,
+	// untampered listener, every dialer configuration: these dials must complete
+	addrCur, err := extractCertHashes(ln.Multiaddr())
+	if err != nil {
+		t.Fatal(err)
+	}
+	for _, dc := range append([]*c18Dialer{d}, cfgDialers...) {
+		oc := dc.runGenuine(addrPrev)
+		out.Cover(fmt.Sprintf("genuine.cfg%d.address_learned_before_the_rollover.outcome_%d", dc.cfg, oc))
+		oc = dc.runGenuine(addrCur)
+		out.Cover(fmt.Sprintf("genuine.cfg%d.address_learned_after_the_rollover.outcome_%d", dc.cfg, oc))
+		// an address without any certhash must never complete, whatever the dialer's tls.Config trusts
+		oc = dc.run(nil, nil, false, nil)
+		out.Cover(fmt.Sprintf("dial.cfg%d.address_without_certhash.outcome_%d", dc.cfg, oc))
+	}
+	// the server repeats entries in its early-data list: a repeated hash confirms only itself
+	for _, dup := range [][]int{{1, 1, 2}, {1, 1}, {0, 0, 1, 1}, {1, 2, 2, 1}, {3, 3, 1}} {
+		var ser [][]byte
+		for _, i := range dup {
+			ser = append(ser, enc(pool[i]))
+		}
+		for _, ad := range [][]int{{1, 3}, {1, 0}, {1, 2}, {1}, {3, 1}, {1, 5}} {
+			var hs []multihash.DecodedMultihash
+			for _, i := range ad {
+				hs = append(hs, pool[i])
+			}
+			d.run(nil, ser, true, hs)
+		}
+		out.Cover("dial.server_list_with_duplicates")
 	}
 	// the server does not confirm: drops each entry in turn, sends nothing, sends garbage, re-codes an entry
 	for drop := 0; drop < len(origSer); drop++ {
@@ -1039,6 +1095,13 @@ func c18Dials(t *testing.T, out *verifh.Out, r *verifh.Rand, sg *c18Signers, n i
 			for _, h := range pool {
 				if r.Chance(1, 2) {
 					ser = append(ser, enc(h))
+				}
+			}
+			if len(ser) > 0 && r.Chance(1, 3) {
+				k := r.Intn(len(ser))
+				ser = append(ser, ser[k]) // a repeated entry
+				if r.Bool() {
+					ser = append(ser, ser[k])
 				}
 			}
 			if ser == nil {
@@ -1293,6 +1356,68 @@ func c18ListenerTimeline(out *verifh.Out, r *verifh.Rand, maxOps int) {
 	out.Case(line)
 }
 
+
+// a listener that has been up across TWO rollovers (started two buckets in the past on the mock clock,
+// so that the certificate served now is valid on the wall clock): dials with the addresses its multiaddr
+// carried in the previous and in the current period must complete; the one from two periods ago must not
+func c18GenuineAfterRollovers(t *testing.T, out *verifh.Out, r *verifh.Rand, rolls int) {
+	key, _, _ := ic.GenerateEd25519Key(c18RandReader{r})
+	id, _ := peer.IDFromPrivateKey(key)
+	period := certValidity - 2*clockSkewAllowance
+	realNow := time.Now()
+	cl := clock.NewMock()
+	cl.Set(realNow.Add(-time.Duration(rolls) * period))
+	n := c18StartNode(key, cl)
+	defer n.close()
+	var addrs [][]multihash.DecodedMultihash
+	read := func() {
+		a, err := extractCertHashes(n.ln.Multiaddr())
+		if err != nil {
+			t.Fatal(err)
+		}
+		addrs = append(addrs, a)
+	}
+	read()
+	for i := 1; i <= rolls; i++ {
+		c18StepNode(cl, n, period)
+		read()
+	}
+	cl.Set(realNow)
+	m := n.tr.certManager
+	m.mx.RLock()
+	cur := m.currentConfig
+	ser := append([][]byte{}, m.serializedCertHashes...)
+	m.mx.RUnlock()
+	if string(addrs[rolls][0].Digest) != string(cur.sha256[:]) || len(ser) != 3 {
+		out.Cover("genuine.unexpected_listener_state_after_rollovers")
+	}
+	k2, _, _ := ic.GenerateEd25519Key(c18RandReader{r})
+	cm2, err := quicreuse.NewConnManager(quic.StatelessResetKey{}, quic.TokenGeneratorKey{})
+	if err != nil {
+		t.Fatal(err)
+	}
+	defer cm2.Close()
+	cliI, err := New(k2, nil, cm2, nil, &network.NullResourceManager{})
+	if err != nil {
+		t.Fatal(err)
+	}
+	defer cliI.(*transport).Close()
+	base := n.ln.Multiaddr().String()
+	if i := strings.Index(base, "/certhash/"); i >= 0 {
+		base = base[:i]
+	}
+	d := &c18Dialer{out: out, r: r, srvKey: key, srvID: id, srv: n.tr, cli: cliI.(*transport), base: base, mgr: m, origCur: cur, origSer: ser}
+	oc := d.runGenuine(addrs[rolls-1])
+	out.Cover(fmt.Sprintf("genuine.after_%d_rollovers.address_of_previous_period.outcome_%d", rolls, oc))
+	oc = d.runGenuine(addrs[rolls])
+	out.Cover(fmt.Sprintf("genuine.after_%d_rollovers.address_of_current_period.outcome_%d", rolls, oc))
+	if rolls >= 2 {
+		oc = d.run(nil, nil, false, addrs[rolls-2])
+		out.Cover(fmt.Sprintf("dial.after_%d_rollovers.address_of_two_periods_ago.outcome_%d", rolls, oc))
+	}
+	time.Sleep(300 * time.Millisecond)
+}
+
 // ---- entry points ------------------------------------------------------------------
 
 func TestVerifNothing(t *testing.T) {}
@@ -1372,6 +1497,8 @@ func TestVerifC18(t *testing.T) {
 	})
 
 	c18Dials(t, out, r.Fork(), sg, nDial)
+	c18GenuineAfterRollovers(t, out, r.Fork(), 2)
+	c18GenuineAfterRollovers(t, out, r.Fork(), 3)
 
 	nListener := 60
 	if thorough {
